@@ -587,6 +587,9 @@ def run_filter_case(ctx, case):
 # the competition as the pipeline runs it: one Ruleset object, several records
 # --------------------------------------------------------------------------------------------
 
+SCORE_SHIFT = 1.4375        # bitscores are not whole numbers
+
+
 def run_ruleset_history_case(ctx, case):
     """ the real detect_protoclusters_and_signatures (find_hmmer_hits -> filter_results -> filter_result_multiple) with
         the equivalence groups held by one Ruleset that is built as hmm_detection.get_ruleset builds it and then used
@@ -603,10 +606,10 @@ def run_ruleset_history_case(ctx, case):
     # runs without --cut_tc, the cutoff is applied as the hits are read) and must not take part in the competition
     cutoffs = {}
     for position, name in enumerate(profiles):
-        scores = sorted(h[4] + 1 for h in hits if h[1] == name)
+        scores = sorted(h[4] + SCORE_SHIFT for h in hits if h[1] == name)
         cutoffs[name] = scores[len(scores) // 2] if position % 2 and scores else 1
     signatures = {name: HmmSignature(name, name + " description", cutoffs[name], "dummy.hmm") for name in profiles}
-    valid = [h for h in hits if h[4] + 1 > cutoffs[h[1]]]
+    valid = [h for h in hits if h[4] + SCORE_SHIFT > cutoffs[h[1]]]
     if len(valid) < len(hits):
         ctx.count("class:hits-below-their-profile-cutoff")
     rule = rule_parser.DetectionRule("any", "cat", 5000, 5000, rule_parser.SingleCondition(False, profiles[0]))
@@ -627,7 +630,7 @@ def run_ruleset_history_case(ctx, case):
         for gene, profile, start, end, score in hits:
             per_profile.setdefault(profile, []).append(
                 StubHSP(gene, profile, query_start=start, query_end=end, hit_start=start, hit_end=end,
-                        bitscore=score + 1, evalue=G.evalue_of(score)))
+                        bitscore=score + SCORE_SHIFT, evalue=G.evalue_of(score)))
         return [SimpleNamespace(accession=profile, id=profile, hsps=hsps) for profile, hsps in per_profile.items()]
 
     def spying_find(*args, **kwargs):
@@ -648,7 +651,8 @@ def run_ruleset_history_case(ctx, case):
                                                       "stage": "detect", "record_index": index}, case)
                 return
             ctx.count("op:ruleset-history")
-            got = {gene: sorted(PHit(h.query_id, h.query_start, h.query_end, h.bitscore - 1) for h in members)
+            # (the scores reach the results as hmmsearch gave them, fraction included)
+            got = {gene: sorted(PHit(h.query_id, h.query_start, h.query_end, round(h.bitscore - SCORE_SHIFT, 6)) for h in members)
                    for gene, members in captured.get("hits", {}).items() if members}
             if got != {g: m for g, m in expected.items() if m}:
                 ctx.violate("competition-same-for-every-record-of-a-run",
